@@ -21,7 +21,9 @@ from valida.conditions import ConditionLike
 META = {
     "rule": "every (argument position x path argument x rule path) rule, API-built and spec-built, x every document; "
             "a case is one (rule, document) pair compared with the literal-argument rule; non-trivial = the path argument "
-            "resolves without error and the rule was tested (its own path exists); distinct by construction",
+            "resolves without error and the rule was tested (its own path exists); distinct by construction; plus 6 path arguments differing only in the type "
+            "of an equal-valued part (1 / 1.0 / True, 0 / 0.0 / False) x 21 positions, all loaded in one pristine process, in both orders; plus every escaped / "
+            "unescaped spelling of 10 literal mappings with 'path' among their keys in every inspected position",
     "assumptions": ["documents on which resolving the path argument is itself an error by C04 (`single` with several "
                     "matches, datum modifier undefined on a selected node) are executed, counted and not judged",
                     "the literal rule is judged by the implementation itself (relational oracle): leaf meanings are C01's business"],
